@@ -17,8 +17,12 @@ static void init(void) {
 }
 
 /* one load of an exact-size 32-byte heap buffer, judged against the model */
+/* buffers are exact-size heap blocks that END at the block's end (red zone right behind) and START at every alignment
+ * 0..7 in turn: the storage type is a byte array, callers may keep it at any address (e.g. inside a packed record) */
+static unsigned g_align;
+static uint8_t* buf_alloc(uint8_t** base) { unsigned off = g_align++ % 8; *base = malloc(32 + off); pv_countf(1, "buffers.alignment_mod8.%u", (unsigned)((uintptr_t)(*base + off) % 8)); return *base + off; }
 static void judge(const uint8_t buf[32], const char* cls) {
-    uint8_t* b = malloc(32); memcpy(b, buf, 32);
+    uint8_t* bbase; uint8_t* b = buf_alloc(&bbase); memcpy(b, buf, 32);
     pv_mseed want; int ws = pv_m_load(b, g_mask, &want);
     int live0 = pv_ledger_live();
     polyseed_data* s = NULL;
@@ -37,14 +41,14 @@ static void judge(const uint8_t buf[32], const char* cls) {
             const char* mm = pv_seed_mismatch(s, &want, 0);
             if (mm) { ok = false; pv_violation("C06/loaded-seed-differs", "[%s] buffer %s: %s", cls, pv_hex(buf, 32), mm); }
         }
-        uint8_t* o = malloc(32); pv_api_store(s, o);
+        uint8_t* obase; uint8_t* o = buf_alloc(&obase); pv_api_store(s, o);
         if (memcmp(o, buf, 32)) { ok = false; pv_violation("C06/not-canonical", "[%s] accepted buffer %s is stored back as %s", cls, pv_hex(buf, 32), pv_hex(o, 32)); }
-        free(o);
+        free(obase);
         pv_api_free(s);
     }
     if (pv_ledger_live() != live0) { ok = false; pv_violation("C06/seed-left-allocated", "[%s] %d blocks live after load -> %s and free", cls, pv_ledger_live() - live0, pv_status_name(st)); }
     if (ok) PV_DISTINCT("nontrivial", pv_hash(buf, 32, g_mask));
-    free(b);
+    free(bbase);
 }
 
 /* ---------------------------------------------------------------- round trip */
@@ -56,7 +60,7 @@ static void run_round(uint64_t idx, pv_rng* rng) {
     polyseed_data* s = pv_seed_from_model(&m);
     PV_COUNT("evaluations", 1);
     if (!s) { pv_violation("C06/valid-image-rejected", "mask %u seed %s image %s", g_mask, pv_mseed_str(&m), pv_hex(img, 32)); return; }
-    uint8_t* o = malloc(32);
+    uint8_t* obase; uint8_t* o = buf_alloc(&obase);
     bool other = idx % 5 == 0;      /* storing does not depend on which features are enabled at the moment */
     if (other) { polyseed_enable_features(pv_randn(rng, 8)); PV_COUNT("roundtrip.stored_under_other_feature_mask", 1); }
     pv_api_store(s, o);
@@ -76,7 +80,7 @@ static void run_round(uint64_t idx, pv_rng* rng) {
         pv_set_rand_prng();
     }
     if (idx < 3) pv_sample("roundtrip", "seed %s <-> %s", pv_mseed_str(&m), pv_hex(img, 32));
-    free(o); pv_api_free(s);
+    free(obase); pv_api_free(s);
 }
 
 /* ---------------------------------------------------------------- exhaustive field sweeps around valid images */
